@@ -90,8 +90,13 @@ static void snapshot(vt::J &j, World &w)
     j.end();
     // lists reported by hyperedge improvement / rerouting
     HyperedgeNewAndDeletedObjectLists L = r->newAndDeletedObjectListsFromHyperedgeImprovement();
-    j.k("newJ").arr(); for (auto q : L.newJunctionList) j.i(q->id()); j.end();
-    j.k("newC").arr(); for (auto q : L.newConnectorList) j.i(q->id()); j.end();
+    // (the lists are only refreshed by a transaction in which the improver runs: after one in which it does not, they may still name
+    //  objects that have been freed since -- so "new" objects are dereferenced only if the router still has them)
+    std::set<const void *> liveNow;
+    for (Obstacle *o : r->m_obstacles) liveNow.insert(o);
+    for (ConnRef *c : r->connRefs) liveNow.insert(c);
+    j.k("newJ").arr(); for (auto q : L.newJunctionList) j.i(liveNow.count(q) ? (long long)q->id() : (w.seenIds.count(q) ? w.seenIds[q] : -1)); j.end();
+    j.k("newC").arr(); for (auto q : L.newConnectorList) j.i(liveNow.count(q) ? (long long)q->id() : (w.seenIds.count(q) ? w.seenIds[q] : -1)); j.end();
     // (deleted objects may already be freed: identify them by address, never dereference)
     j.k("delJ").arr(); for (auto q : L.deletedJunctionList) j.i(w.seenIds.count(q) ? w.seenIds[q] : -1); j.end();
     j.k("delC").arr(); for (auto q : L.deletedConnectorList) j.i(w.seenIds.count(q) ? w.seenIds[q] : -1); j.end();
